@@ -670,11 +670,50 @@ def check_C17(ctx):
                                    "reflected text contains no line feed (a multi-line label interleaves with the source lines)"])
 
 
+# ------------------------------------------------------------------------------------------------
+# C18 (PathMap)
+# ------------------------------------------------------------------------------------------------
+DECOYS = ("max_count", "Name", "MAXCOUNT", "max-count")
+
+
+def check_C18(ctx):
+    q = ctx.quick()
+    cases = ctx.path("cases.ndjson")
+    run_mc(ctx, "MC_PathMap", dict(MaxItems=0 if q else 1), ["InvIssues", "InvNoClash", "EmitCase"], workers=2,
+           timeout=3000, cases_out=cases, label="MC_PathMap")
+    ctx.exhaustive = True
+    recs = ctx.path("recs.ndjson")
+    st = run_vh(ctx, ["c18", "--cases", cases, "--out", recs, "--random", 250 if q else 6000, "--seed", ctx.seed], timeout=6000)
+    ctx.evaluations += st["records"]
+    ctx.distinct_nontrivial += st["nontrivial"]
+    ctx.samples += st["samples"]
+    for k in ("passing", "failing", "multi", "issues", "through_alias_or_merge"):
+        ctx.notes[k] = st[k]
+    mism = run_tv(ctx, "TV_PathMap", recs, timeout=6000, shards=12)
+    def decoy(rec, d):
+        return any(e.get("k") == "S" and e.get("v") in DECOYS for doc in rec.get("docs", []) for e in doc.get("raw", []))
+    matchers = {"C18-decoy-key-collision": lambda rec, d: isinstance(d, dict) and d.get("verdict") in ("reported-paths-differ", "field-mapped-to-the-wrong-site") and decoy(rec, d)}
+    classify_mismatches(ctx, mism, recs, matchers, "validating entry point disagrees with PathMap!Issues (paths, use / definition sites, documents reported) or with the plain entry point")
+    return finish(ctx, "model_checking",
+                  "family Outer{first, subItem (renamed), items[], tag} / Inner{name, maxCount (renamed)}: every document with <= 0/1 items "
+                  "over 6 forms per Inner (direct, alias of a base mapping, merge, merge with either field overridden, name from an aliased "
+                  "scalar) x good / bad values enumerated by TLC as raw events (model-level check of the recorder against per-form "
+                  "expectations) and rendered in flow or block style; random documents with up to 4 items, several bases, anchors defined "
+                  "in place, shuffled fields, ignored extra keys, decoy keys; each through garde and validator via the str entry point and "
+                  "in rotation via slice / reader; streams of 2-4 documents via from_multiple_* and read_*; issues are read from the miette "
+                  "adapter's related diagnostics (path, use-site and definition-site byte offsets); non-trivial = a reported issue whose "
+                  "value came through an alias or merge",
+                  ASSUME_COMMON + ["independent positions come from saphyr-parser markers", "documents in which two merge sources supply the "
+                                   "same key are skipped (precedence is C03's subject)",
+                                   "constrained strings are ASCII (the two crates count length differently otherwise)"])
+
+
 CHECKS = {
     "C02": check_C02,
     "C14": check_C14,
     "C16": check_C16,
     "C17": check_C17,
+    "C18": check_C18,
     "C15": check_C15,
     "C13": check_C13,
     "C20": check_C20,
